@@ -66,7 +66,7 @@ MIN_HITS = {
         'mon:download': 3000, 'mon:decompress': 2500, 'mon:load_split': 600,
         'oracle:kill-image': 800, 'oracle:exception-image': 1500, 'oracle:rename-instant': 300,
         'oracle:later-call': 1500, 'oracle:reuse-no-network': 1200, 'oracle:real-kill': 6,
-        'fired:crash': 800, 'fired:read': 30, 'fired:write': 100, 'fired:srcread': 20, 'fired:status': 20,
+        'fired:crash': 800, 'fired:read': 300, 'fired:stderr': 60, 'fired:write': 100, 'fired:srcread': 20, 'fired:status': 20,
         'fired:get': 10, 'fired:rename': 10, 'fired:open': 10, 'stale-planted': 150, 'seq:len2': 30, 'seq:len3': 30,
         'load_split:crash-fired': 40, 'oracle:invalid-download': 6,
     },
@@ -142,12 +142,60 @@ class _Raw:
     f = env.fault
     if f['kind'] == 'read' and f['i'] == i and not env.fired:
       env.fired = True
-      raise IOError(errno.ECONNRESET, f'injected: connection reset while reading block {i}')
+      raise read_exception(f.get('exc', 'OSError'), i)
     if n is None or n < 0:
       n = len(self.data) - self.pos
     b = self.data[self.pos:self.pos + n]
     self.pos += len(b)
     return b
+
+
+# What a dropped / stalled connection looks like to the caller of response.raw.read(): urllib3 raises its own classes there,
+# requests wraps some of them, the socket layer raises OSError.
+READ_EXCS = ('OSError', 'requests.ConnectionError', 'requests.Timeout', 'requests.ChunkedEncodingError',
+             'urllib3.ProtocolError', 'urllib3.ReadTimeoutError', 'http.IncompleteRead')
+
+
+def read_exception(kind, i):
+  msg = f'injected: connection lost while reading block {i}'
+  if kind == 'OSError':
+    return IOError(errno.ECONNRESET, msg)
+  if kind.startswith('requests.'):
+    import requests
+    return getattr(requests.exceptions, kind.split('.')[1])(msg)
+  if kind == 'urllib3.ProtocolError':
+    import urllib3
+    return urllib3.exceptions.ProtocolError(msg)
+  if kind == 'urllib3.ReadTimeoutError':
+    import urllib3
+    return urllib3.exceptions.ReadTimeoutError(None, 'https://fake.invalid/', msg)
+  if kind == 'http.IncompleteRead':
+    import http.client
+    return http.client.IncompleteRead(b'', 1)
+  raise core.HarnessError(f'unknown read exception kind {kind}')
+
+
+class _BrokenStderr:
+  """sys.stderr of a process whose terminal / pipe goes away: every write from call index k on raises EPIPE."""
+
+  def __init__(self, env, sink):
+    self.env, self.sink = env, sink
+
+  def write(self, text):
+    env = self.env
+    idx = env.n_err
+    env.n_err += 1
+    f = env.fault
+    if f['kind'] == 'stderr' and idx >= f['k']:
+      env.fired = True
+      raise BrokenPipeError(errno.EPIPE, 'injected: Broken pipe (stderr)')
+    return self.sink.write(text)
+
+  def flush(self):
+    pass
+
+  def isatty(self):
+    return False
 
 
 class _Response:
@@ -261,7 +309,7 @@ class Env:
     self.active = False
     self.fault = NO_FAULT
     self.fired = False
-    self.n_read = self.n_write = self.n_srcread = 0
+    self.n_read = self.n_write = self.n_srcread = self.n_err = 0
     self.root = None
     self.watch = {}
     self.rename_log = []
@@ -343,14 +391,14 @@ class Env:
   def scope(self, fault):
     self.fault = fault or NO_FAULT
     self.fired = False
-    self.n_read = self.n_write = self.n_srcread = 0
+    self.n_read = self.n_write = self.n_srcread = self.n_err = 0
     self.rename_log = []
     self.kill_image = None
     builtins.open = self.hooked_open
     os.rename = self.hooked_rename
     os.replace = self.hooked_replace
     old_err = sys.stderr
-    sys.stderr = self.devnull
+    sys.stderr = _BrokenStderr(self, self.devnull)
     self.active = True
     try:
       yield
@@ -608,7 +656,9 @@ def fault_label(f):
   if k == 'crash':
     return f'crash@{f["k"]}'
   if k == 'read':
-    return f'read@{f["i"]}'
+    return f'read@{f["i"]}' + (f':{f["exc"]}' if f.get('exc', 'OSError') != 'OSError' else '')
+  if k == 'stderr':
+    return f'stderr-broken-from-write@{f["k"]}'
   if k == 'write':
     return f'write@{f["j"]}:{f["mode"]}'
   if k == 'srcread':
@@ -666,13 +716,13 @@ def record_space(ctx, env, op, scratch):
                       f'a fault-free call on an empty cache raised {type(e).__name__}: {str(e)[:160]}',
                       {**wit, 'frames': [f'{f}:{l}:{n}' for f, l, n in frames[-5:]]})
         return None
-      counts = (env.n_read, env.n_write, env.n_srcread)
+      counts = (env.n_read, env.n_write, env.n_srcread, env.n_err)
     ok, detail = op.returned_ok(d, ret)
     if not ok:
       ctx.violation(f'call/{op.name}-returns-incomplete-from-consistent-cache',
                     'a fault-free call on an empty cache returned incomplete/wrong content', {**wit, **detail})
       return None
-    return {'events': rec.events, 'reads': counts[0], 'writes': counts[1], 'srcreads': counts[2]}
+    return {'events': rec.events, 'reads': counts[0], 'writes': counts[1], 'srcreads': counts[2], 'errwrites': counts[3]}
   finally:
     shutil.rmtree(d, ignore_errors=True)
 
@@ -681,7 +731,9 @@ def single_faults(op, space, crash_stride=1):
   fs = [{'kind': 'status'}, {'kind': 'get'}, {'kind': 'open'}, {'kind': 'rename'}]
   if op.name == 'decompress':
     fs = [{'kind': 'open'}, {'kind': 'rename'}]
-  fs += [{'kind': 'read', 'i': i} for i in range(space['reads'])]
+  fs += [{'kind': 'read', 'i': i, 'exc': e} for i in range(space['reads']) for e in READ_EXCS]
+  # the progress display writes to stderr while blocks are being transferred: a terminal / pipe that goes away mid-transfer
+  fs += [{'kind': 'stderr', 'k': k} for k in range(space.get('errwrites', 0))]
   fs += [{'kind': 'write', 'j': j, 'mode': m} for j in range(space['writes']) for m in ('before', 'torn', 'kill')]
   nsrc = space['srcreads']
   fs += [{'kind': 'srcread', 'i': i} for i in range(nsrc)]
